@@ -1,4 +1,5 @@
 import GmQuic.Lemmas.SentHist
+import GmQuic.Lemmas.AckNodup
 /-!
 C10, sending direction.  `runFrom init ops` ranges over ALL histories of packets built with zero, one or many frames /
 trivial packets / empty guards, peer ACK frames (`space.rs recv_frame`: any frame, overlapping, repeated, out of order,
@@ -78,11 +79,15 @@ theorem acked_nothing_afterwards (pre post : List Op) (hpre : ∀ op ∈ pre, op
   rw [hlive] at h4 h5
   exact ⟨hlive, ⟨s'', h4⟩, ⟨s3, h5⟩⟩
 
+/-- non-vacuity of `acked_nothing_afterwards`: packet 0 carried frames, is acknowledged, later declared lost: nothing -/
+example : let s := runFrom (step (runFrom init [.pkt [1, 2] false 5 9]) (.acked [0])).1 [.tick 3, .lost [0]]
+    (0 : Nat) ∈ [0] ∧ 0 < (runFrom init [.pkt [1, 2] false 5 9]).largest ∧ live s 0 = [] := by decide
+
 /-- **acked_frames_exact** (whole ACK frame, `space.rs recv_frame`): an accepted, well-formed ACK frame reports exactly
 the concatenation, in the order the numbers are enumerated (descending), of the frames recorded for the in-flight
 packets it covers — each frame once, nothing else. -/
 theorem ack_reports_exact (ops : List Op) (hp : ∀ op ∈ ops, op.plain = true) (f : AckFrame) (rs : List (Nat × Nat))
-    (hit : f.iter = some rs) (hok : updateLargestOk (runFrom init ops) f.largest = true) (hnd : (pnsDesc rs).Nodup) :
+    (hit : f.iter = some rs) (hok : updateLargestOk (runFrom init ops) f.largest = true) :
     (step (runFrom init ops) (.ack f)).2 = .frames (((pnsDesc rs).map (live (runFrom init ops))).flatten) := by
   obtain ⟨hi, -, -⟩ := runFrom_plain ops init init_sinv hp
   generalize runFrom init ops = s at *
@@ -90,7 +95,7 @@ theorem ack_reports_exact (ops : List Op) (hp : ∀ op ∈ ops, op.plain = true)
     touchAll_acked (pnsDesc rs) { s with la := max s.la f.largest } (sinv_la s hi _)
   obtain ⟨s', hr, -⟩ := resize_spec s1 i1
   simp only [step, stepWith, hok, if_true, hit, withResize, h1, Option.map_some, hr]
-  rw [hfs hnd]
+  rw [hfs (GmQuic.RcvdJournal.iter_nodup f rs hit)]
   congr 2
 
 example : (step (runFrom init [.pkt [1, 2] false 5 9, .pkt [] true 5 9, .pkt [3] false 5 9]) (.ack ⟨2, 0, 2, []⟩)).2
